@@ -586,7 +586,8 @@ for _c in ('ModelFixed', 'ModelWeighted', 'ModelSelect', 'ModelInterpolate'):
     spec('model.model.%s.__init__' % _c, name=lit('m', 'model x'),
          rdm=one_of(rdms(single=_one), rdms(single=_one), _arr, _mat))
     _theta = (const(None) if _one else lit(0, 1) if _c == 'ModelSelect'
-              else one_of(const(None), array(('n_rdm',), 1, 8, 4.0)))
+              else one_of(const(None), array(('n_rdm',), 1, 8, 4.0),
+                          array(('n_rdm',), 1, 8, 4.0, shift=-1.0)))    # (weights may be negative)
     spec('model.model.%s.predict' % _c, self=model(_c, from_array=True), theta=_theta)
     spec('model.model.%s.predict_rdm' % _c, self=model(_c, from_array=True), theta=_theta)
 spec('model.model.Model.__init__', name=lit('m'))
